@@ -507,6 +507,7 @@ def hunt_rules(chk, repo):
     hunt3_rules(chk, repo)
     hunt4_rules(chk, repo)
     round6_rules(chk, repo)
+    hunt5_rules(chk, repo)
     # ---- C19.textsize: a text-mode file's byte size is its payload size only under the same codec (shared with C04) --------------------------
     textsize(chk, repo, "C19.size")
 
@@ -530,6 +531,54 @@ def textsize(chk, repo, rule):
             else:
                 chk.violation(rule + ".newline", r, "return super().size", "None (a text-mode stream cannot promise its encoded length)",
                               "TextIOPayload.size is the on-disk size whenever the codecs agree, but text mode also translates newlines and applies an error handler: a 10-byte CRLF file opened with open(p) writes 8 bytes under `Content-Length: 10` (the peer stalls), with errors='replace' 5 bytes go out under a size of 3; multipart part lengths are wrong the same way")
+
+
+def hunt5_rules(chk, repo):
+    """Rules written after the fifth defect hunt (F282-F284)."""
+    # ---- C19.readline.eof: the end of the stream ends the part for the line reader as well -----------------------------------------------------------
+    # StreamReader.readline() at EOF returns b"" at once and does not suspend: a part whose closing boundary never came must not hand that out as
+    # an (empty) line for ever - `while not part.at_eof(): await part.readline()` would spin and freeze the event loop.
+    rl = repo.func(MP, "BodyPartReader.readline")
+    ends = [x for x in ast.walk(rl.node) if (isinstance(x, ast.Raise) or (isinstance(x, ast.Assign) and norm.raw(x.targets[0]) == "self._at_eof" and isinstance(x.value, ast.Constant) and x.value.value is True))
+            and any((not l.pos and l.text == "line") or (l.pos and l.text in ("not line", "line == b''", "len(line) == 0")) for l in PC.units(PC.pc(x, raw=True)))]
+    if ends:
+        chk.ok("C19.readline.eof", ends[0], "readline(): an empty line from the stream (its end) ends the part or is an error")
+    else:
+        chk.violation("C19.readline.eof", rl, "line = await self._content.readline()", "if not line: self._at_eof = True; return b''   (or raise)",
+                      "on a body whose closing boundary is missing readline() returns b'' for ever and at_eof() never becomes true: StreamReader.readline() at EOF does not suspend, so `while not part.at_eof(): await part.readline()` spins and freezes the event loop (one raw POST against a handler that reads a part line by line), while read_chunk() on the same bytes raises after three calls")
+    # ---- C19.cd.strip: only a file name loses the directory in front of it ---------------------------------------------------------------------------
+    n = 0
+    for fn in (repo.func(MP, "parse_content_disposition"), repo.func(MP, "content_disposition_filename")):
+        for c in prog.calls_in(fn.node):
+            if not (isinstance(c.func, ast.Attribute) and c.func.attr == "lstrip" and c.args):
+                continue
+            a0 = c.args[0]
+            vals = [a0] if not isinstance(a0, ast.Name) else [v for _d, v in norm.fn_defs(fn.node).defs.get(a0.id, []) if v is not None]
+            consts = [k for v in vals for k in ([v.body, v.orelse] if isinstance(v, ast.IfExp) else [v]) if isinstance(k, ast.Constant) and isinstance(k.value, str)]
+            if not any("/" in k.value or "\\" in k.value for k in consts):
+                continue
+            n += 1
+            by_def = all(isinstance(v, ast.IfExp) and "filename" in norm.raw(v.test) and isinstance(v.orelse, ast.Constant) and v.orelse.value == "" for v in vals) and isinstance(a0, ast.Name)
+            by_pc = any("filename" in l.text for cl_ in PC.pc(c, raw=True) for l in cl_)
+            if by_def or by_pc:
+                chk.ok("C19.cd.strip", c, f"{fn.qualname}: leading `/` and `\\` are stripped from file-name parameters only")
+            else:
+                chk.violation("C19.cd.strip", c, K.short(c), "strip = '\\/' if <the parameter is filename / filename* / filename*N> else ''",
+                              f"{fn.qualname} strips leading `/` and `\\` from every Content-Disposition parameter: FormData fields named `/a`, `/`, `\\\\host\\share` are read back as `a`, ``, `host\\share` (with and without quote_fields, and in the name*= form), and in request.post() the fields `/a` and `a` collapse into one key")
+    chk.expect_count("C19.cd.strip", n, 4, "strippings of path separators in the Content-Disposition reader")
+    # ---- C19.size.nested: a generated Content-Length is withdrawn when what it declared is no longer known --------------------------------------------
+    pe = repo.func(MP, "MultipartWriter._part_encodings")
+    sets = [a for a in ast.walk(pe.node) if isinstance(a, ast.Assign) and isinstance(a.targets[0], ast.Subscript) and "CONTENT_LENGTH" in norm.raw(a.targets[0].slice)]
+    pops = [c for c in prog.calls_in(pe.node) if isinstance(c.func, ast.Attribute) and c.func.attr in ("pop", "popall") and c.args and "CONTENT_LENGTH" in norm.raw(c.args[0])]
+    if not sets:
+        chk.ok("C19.size.nested", pe, "_part_encodings() generates no Content-Length")
+    else:
+        stale_ok = [c for c in pops if any((not l.pos and l.text == "size is not None") or (l.pos and l.text == "size is None") for l in PC.units(PC.pc(c, raw=True)))]
+        if stale_ok:
+            chk.ok("C19.size.nested", stale_ok[0], "_part_encodings(): the Content-Length it generated earlier is removed when the part's size has become unknown (a nested writer that got an encoded part)")
+        else:
+            chk.violation("C19.size.nested", sets[0], K.short(sets[0]), "elif isinstance(payload, MultipartWriter): payload.headers.pop(CONTENT_LENGTH, None)",
+                          "_part_encodings() writes a part's Content-Length when its size is known and never takes it back: `root.append(sub)` stores `Content-Length: 9` on the nested writer, `sub.append(data, {'Content-Transfer-Encoding': 'base64'})` makes sub.size None, and write() / as_bytes() still send `Content-Length: 9` in front of a 570-byte nested body")
 
 
 def round6_rules(chk, repo):
